@@ -11,7 +11,7 @@ CLAIMED = {
          "Exploration: every matrix of <=3 (quick) / <=4 (thorough) rows over all patterns of depth <=2 for bool, Opt[bool], (bool,bool) and a three-variant enum, plus random matrices over ints, strings, unit, tuples, a struct, enums and generic Opt[T] (depth <=3, <=6 rows) and destructuring lets; each program applies the match to ALL values of the scrutinee type over representative leaf domains that some row matches and to one unmatched value; stdout/end under miniGo must equal first-match semantics (failed match must fail at that point); ticked scrutinee detects double evaluation.",
          PROG_NOTE, "DESIGN.md §5 C06"),
  "C19": ("exhaustive enumeration of the compiler's name-encoding functions over a small identifier alphabet + directed collision programs + differential PBT with hostile identifier pools",
-         "Exploration: (1) go_ident/go_type_name_for/ref_struct_name/array_helper_fn_name/trait_impl_fn_name/inherent_method_fn_name on every identifier over {A,B,a,b,_,1} (len<=3/4) and every pair/(trait,type)/(type,method) combination: distinct entities must get distinct Go identifiers, user names must not come out as Go keywords/predeclared names; (2) 28 directed programs (two of them across packages / through dyn), one per collision family, must build and print the expected output; (1b) 120k/600k pseudo-random tuple types of depth <=5 (Vec/Ref/array/function components, package-qualified and generic-instance names): every struct name a legal Go identifier, distinct types distinct names; (3) ~50k/800k generated programs whose function/type/field/local names come from pools of Go keywords, predeclared identifiers, runtime-helper and temporary look-alikes must type-check as Go and behave as the (name-independent) reference interpreter says.",
+         "Exploration: (1) go_ident/go_type_name_for/ref_struct_name/array_helper_fn_name/trait_impl_fn_name/inherent_method_fn_name on every identifier over {A,B,a,b,_,1} (len<=3/4) and every pair/(trait,type)/(type,method) combination: distinct entities must get distinct Go identifiers, user names must not come out as Go keywords/predeclared names; (2) 28 directed programs (two of them across packages / through dyn), one per collision family, must build and print the expected output; (1b) 120k/600k pseudo-random tuple types of depth <=5 (Vec/Ref/array/function components, package-qualified and generic-instance names): every struct name a legal Go identifier, distinct types distinct names; (3) ~50k/800k generated programs whose function/type/field/local names come from pools of Go keywords, predeclared identifiers, runtime-helper and temporary look-alikes must type-check as Go and behave as the (name-independent) reference interpreter says. twin-types: 2-3 packages declare enums / structs of one name (shared variant names), a generic enum is instantiated at the same-named types of two packages; helper names (Ref cells, array helpers, trait-impl functions) over 84 small function types must be pairwise distinct; hostile pools include trait / method names and names that look like the runtime's pure helpers or start like a builtin.",
          PROG_NOTE, "DESIGN.md §5 C19"),
  "C03": ("generated accepted programs re-type-checked at every IR stage by independent checkers; single ill-typed statement injected at random positions must be rejected",
          "Exploration: (a) ~54k (quick) / ~880k (thorough) accepted generated programs: four independent IR type checkers (Core, Mono, Lift, ANF) must find every variable bound with the binder's type, every call/constructor/projection/operator/branch consistent with declared signatures, and no TParam/TVar/TApp residue after monomorphisation (a third of the programs with traits, impls, all method call forms, bounded generics and dyn values: dyn coercions and dyn calls are checked too); (b) ~40k / 600k programs with one ill-typed statement inserted at a random position in a random nested block (fixed kinds, systematic one-point type mutations, occurs-check shapes, pattern/scrutinee mismatches, trait-method calls with a wrong argument type or count on concrete and dyn receivers, coercion to dyn without an impl, local annotations naming unknown types or applying a nominal type to the wrong number of arguments) must be rejected with an error diagnostic (never accepted, never a crash); (c) twins: 1.5k / 20k two- or three-package projects in which a struct/enum name is declared in two packages and a value of one is used where the other is required (5 sites, same or different shapes): rejected, and the control with the right type accepted.",
@@ -45,7 +45,7 @@ CLAIMED = {
          "Trusted: in-process calls stand for the CLI subcommands except in the cli phase; non-termination is only observable as a watchdog hit (reported as inconclusive, exit 2); resource exhaustion is observed as a worker abort under a 6 GiB address-space cap.",
          "DESIGN.md §5 C04"),
  "C12": ("exhaustive short strings + random/mutated texts; round-trip & tiling oracle on lexer and CST",
-         "Exploration: every string of <=3 (quick) / <=4 (thorough) symbols over a 46-symbol alphabet covering each token class is enumerated, plus the exhaustive unwind (depth x opener x context x following item) and repeat (fragment repeated 1..600 times in 21 constructs) families, random token/Unicode soups and corpus mutations; each input is judged by a complete oracle (text round-trip, token tiling on char boundaries, leaves==lexer tokens, ranges in bounds, parse twice equal). Absence beyond the explored inputs is not shown.",
+         "Exploration: every string of <=3 (quick) / <=4 (thorough) symbols over a 46-symbol alphabet covering each token class is enumerated, plus the exhaustive unwind (depth x opener x context x following item) and repeat (fragment repeated 1..600 times in 21 constructs) families, random token/Unicode soups and corpus mutations; each input is judged by a complete oracle (text round-trip, token tiling on char boundaries, leaves==lexer tokens, ranges in bounds, parse twice equal). Absence beyond the explored inputs is not shown. mlstring: every multi-line string of 1-3 lines whose lines end in LF or CR LF independently and in one of 6 last characters (none, ASCII, blank, 2/3/4-byte) in 4 contexts (7.5k texts).",
          "Trusted: rowan's text(); the harness oracle. Inputs longer than the bounds are only sampled.",
          "DESIGN.md §5 C12"),
  "C10": ("exhaustive 8-bit literal and operator tables + random wide-integer and float programs; Rust fixed-width/IEEE arithmetic as reference, emitted Go run under the Go-subset interpreter",
@@ -53,19 +53,19 @@ CLAIMED = {
          "Trusted: Rust's wrapping integer and IEEE float arithmetic as the meaning of intN/uintN/floatN; miniGo (calibrated in setup against values fixed by the Go specification); NaN/infinities/negative zero and float overflow are not judged.",
          "DESIGN.md §5 C10"),
  "C13": ("generated multi-package projects compiled repeatedly: same process, fresh processes (fresh hash seeds), other root directory and directory creation order; byte equality of Go, stage dumps, diagnostics, interface hashes",
-         "Exploration: ~2000 generated projects (1-4 packages, DAG imports, cross-package generics/traits/impls) (multi-file packages incl. file names differing only in case, extern-go bindings to several Go packages) plus ~1600 projects with an injected error and the 8 corpus projects: every run (in-process repeat, 1-2 fresh worker processes, a copy created in another directory order under another root, a package's files handed to check/build in reverse order) must give byte-identical Go text, Core/Mono/Lift/ANF dumps, the same diagnostics in the same order and identical interface hashes from check and build.",
+         "Exploration: ~2000 generated projects (1-4 packages, DAG imports, cross-package generics/traits/impls) (multi-file packages incl. file names differing only in case, extern-go bindings to several Go packages) plus ~1600 projects with an injected error and the 8 corpus projects: every run (in-process repeat, 1-2 fresh worker processes, a copy created in another directory order under another root, a package's files handed to check/build in reverse order) must give byte-identical Go text, Core/Mono/Lift/ANF dumps, the same diagnostics in the same order and identical interface hashes from check and build. The projects also carry types that derive ToString and ToJson (one attribute, stacked attributes), bindings to several Go packages, generic instances that occur only in the fields of unused non-generic types, and impls that miss several methods of their trait (several diagnostics for one item).",
          "Trusted: tmpfs directory enumeration follows creation order (varied explicitly); std RandomState reseeds per process. Nondeterminism that needs more than two processes to show is only sampled.",
          "DESIGN.md §5 C13"),
  "C14": ("generated multi-package projects: whole-program compile vs check/build per package in random topological orders with artifacts round-tripped through files, then link; behaviour compared under the Go-subset interpreter",
-         "Exploration: ~6000 generated projects (incl. declaration-only library packages), ~2000 broken ones (text replacement or a compile-stage error), ~3000 with one of the isolation/coherence defects of C16, plus the 8 corpus projects: acceptance must agree between the two pipelines, the linked program must print what the whole-program one prints (miniGo), the result must not depend on which topological build order was used, and check and build must emit byte-identical interface files.",
+         "Exploration: ~6000 generated projects (incl. declaration-only library packages), ~2000 broken ones (text replacement or a compile-stage error), ~3000 with one of the isolation/coherence defects of C16, plus the 8 corpus projects: acceptance must agree between the two pipelines, the linked program must print what the whole-program one prints (miniGo), the result must not depend on which topological build order was used, and check and build must emit byte-identical interface files. A share of the generated projects has a marker trait without methods and a one-method trait implemented in a library, with the entry package coercing a library value to `dyn` of both.",
          "Trusted: in-process separate::{check,build}_package / read_core / link_cores with files on disk stand for the CLI; miniGo for both sides.",
          "DESIGN.md §5 C14"),
  "C15": ("model-based histories of {edit, check, build, link} over small dependency graphs with a reference staleness model + exhaustive/random single-field corruption of interface/core JSON",
-         "Exploration: ~5000 random histories (typed edit operators: body-only vs interface-changing of 15 kinds; rebuild subsets; link) checked after every step against a model that tracks which interface each package was built against: link must succeed iff nothing is stale and then behave as a fresh whole-program compile, interface-changing edits must change the hash, body-only edits must not; every header field of every artifact (exhaustive) and ~7000 random leaf alterations (with and without recomputed hash) must be rejected.",
+         "Exploration: ~5000 random histories (typed edit operators: body-only vs interface-changing of 15 kinds; rebuild subsets; link) checked after every step against a model that tracks which interface each package was built against: link must succeed iff nothing is stale and then behave as a fresh whole-program compile, interface-changing edits must change the hash, body-only edits must not; every header field of every artifact (exhaustive) and ~7000 random leaf alterations (with and without recomputed hash) must be rejected. Interface edits include the reordering of a struct's fields.",
          "Trusted: 'visible to dependents' = everything outside function bodies; staleness propagates through the deps recorded in the hash. Findings KF-55/56/57 gate the shapes they cover.",
          "DESIGN.md §5 C15"),
  "C16": ("generated legal package graphs must be accepted; one injected isolation/coherence defect (13 kinds) must be rejected by every entry point",
-         "Exploration: ~2000 legal projects (all placements of types/traits/impls/qualified references permitted by the imports) must compile whole-program and separately; ~9000 projects with exactly one defect (use of a non-imported package in expression/type/pattern position, missing package, misnamed package declaration, import cycle of length 1-3, orphan impl, duplicate impl in one or sibling packages) must be rejected by compile, check, build (+link), independent of directory enumeration order.",
+         "Exploration: ~2000 legal projects (all placements of types/traits/impls/qualified references permitted by the imports) must compile whole-program and separately; ~9000 projects with exactly one defect (use of a non-imported package in expression/type/pattern position, missing package, misnamed package declaration, import cycle of length 1-3, orphan impl, duplicate impl in one or sibling packages) must be rejected by compile, check, build (+link), independent of directory enumeration order. Defects include references (call, trait call, inherent call, constructor, struct literal) from a file that lacks the import another file of its package has.",
          "Trusted: a defect counts as reported when an error diagnostic comes back; goml being stricter than the statement (per-file imports) is not judged.",
          "DESIGN.md §5 C16"),
  "C17": ("generated trait/impl/receiver programs calling one method through every applicable call form; results must agree with each other and with the impl's body; negative programs (no impl for dyn coercion, ambiguous names) must be rejected",
@@ -73,11 +73,11 @@ CLAIMED = {
          "Trusted: miniGo; call forms the language does not offer are not generated (listed in the evidence assumptions).",
          "DESIGN.md §5 C17"),
  "C18": ("generated derive(ToString/ToJson) types and values; emitted Go run under the Go-subset interpreter; strict JSON parser + structural decoder as the oracle",
-         "Exploration: ~20k random non-generic struct/enum definitions (nesting, recursion through enums) with random values, ~8000 with field/variant names chosen from generated identifiers and helper names, ~10k with hostile strings (controls, quotes, backslashes, non-BMP, BOM): to_json must parse under a strict RFC 8259 parser, decode back to the value (object per struct, tag/fields per variant), to_string must match the documented rendering; a type the derive cannot handle must be rejected by a derive diagnostic, not by the typer or by Go.",
+         "Exploration: ~20k random non-generic struct/enum definitions (nesting, recursion through enums) with random values, ~8000 with field/variant names chosen from generated identifiers and helper names, ~10k with hostile strings (controls, quotes, backslashes, non-BMP, BOM): to_json must parse under a strict RFC 8259 parser, decode back to the value (object per struct, tag/fields per variant), to_string must match the documented rendering; a type the derive cannot handle must be rejected by a derive diagnostic, not by the typer or by Go. Now and then a struct has 6-45 fields or a variant 5-24 payload fields; a user trait with a method named to_string / to_json may be implemented for a derived type.",
          "Trusted: the JSON shape given in the property text and samples; miniGo's %q. Findings KF-36..40 gate the shapes they cover.",
          "DESIGN.md §5 C18"),
  "C20": ("fuzzed editor states (prefixes, truncations and mutations of generated and corpus programs) x cursor positions incl. out-of-text; crash oracle; hover type vs generator's type; every completion inserted and type-checked",
-         "Exploration: ~50k (text, line, col) requests to hover_type, dot_completions and colon_colon_completions on prefixes/mutations of valid programs with positions inside, at the edges of and beyond the text must return without panic; ~8000 hovers on local binders/uses of accepted generated programs and on method names in calls on generic instances (one- and two-parameter types, impls for one instance) must print the generator's type / the method's type at that instance; ~24k completion sites: every offered item is inserted after `x.` / `Path::` and the result must type-check.",
+         "Exploration: ~50k (text, line, col) requests to hover_type, dot_completions and colon_colon_completions on prefixes/mutations of valid programs with positions inside, at the edges of and beyond the text must return without panic; ~8000 hovers on local binders/uses of accepted generated programs and on method names in calls on generic instances (one- and two-parameter types, impls for one instance) must print the generator's type / the method's type at that instance; ~24k completion sites: every offered item is inserted after `x.` / `Path::` and the result must type-check. Hover also on programs whose types derive ToString / ToJson (binders typed only through the derived method); `Pkg::` completion next to entry-package items whose names start with the package's name; thorough adds a libFuzzer campaign (fz_query: bytes -> position + text -> the three queries).",
          "Trusted: the generator's type of a local is what a correct compiler assigns (program accepted first); completeness of completion lists is not judged. Findings KF-47..50 gate the shapes they cover.",
          "DESIGN.md §5 C20"),
 }
